@@ -1061,8 +1061,33 @@ func ruleErrChanDrain(r *core.Reporter) {
 				okOnlyClosed, bad = false, rc
 			}
 		}
+		var fields []string
+		if field != "" {
+			fields = []string{field}
+		} else {
+			// the reader takes the client as a parameter (`go logWARCWriterErrors(client)`): which clients is it started for?
+			for _, caller := range p.FuncsInPkg(rel(pkgArch)) {
+				allInstrs(caller, func(in ssa.Instruction) {
+					cc := ir.AsCall(in)
+					if cc == nil || ir.CalleeOf(cc) != fn {
+						return
+					}
+					for _, a := range cc.Args {
+						ap := ir.Path(a)
+						switch {
+						case strings.HasSuffix(ap, ".ClientWithProxy"):
+							fields = append(fields, "ClientWithProxy")
+						case strings.HasSuffix(ap, ".Client"):
+							fields = append(fields, "Client")
+						}
+					}
+				})
+			}
+		}
 		if okOnlyClosed {
-			readers[field]++
+			for _, f := range fields {
+				readers[f]++
+			}
 			r.Held(key, len(recvs), "reader loops until the channel is closed")
 		} else {
 			r.Violated(key, p.InstrPos(bad), "the ErrChan reader can stop before the channel is closed: a WARC-side error reported afterwards blocks inside the warc module while holding the client's WaitGroup, and archiver.Stop never returns")
